@@ -79,17 +79,25 @@ fn operator_lists(h: &H, idx: u64, rng: &mut Rng) {
         names.push(name);
         models.push(s.model());
     }
-    let null = rng.chance(0.3);
+    let null = rng.chance(0.35);
+    // the null grid ends the list wherever it stands: grids named after it are never consulted
+    let null_at = if null { if rng.chance(0.6) { n } else { rng.below(n + 1) } } else { n };
     let mut list: Vec<String> = Vec::new();
     for (k, name) in names.iter().enumerate() {
+        if null && k == null_at {
+            list.push("@null".into());
+        }
         if rng.chance(0.2) {
             list.push(format!("@missing{k}.{ext}"));
         }
         list.push(if rng.chance(0.3) { format!("@{name}") } else { name.clone() });
     }
-    if null {
+    if null && null_at == n {
         list.push("@null".into());
     }
+    // query points are drawn around all grids, the expectation looks at the consulted ones only
+    let all_models = models.clone();
+    let models: Vec<_> = models.into_iter().take(null_at).collect();
     let dt = rng.short_decimal(1.0, 30.0, 1);
     let def = match bands {
         3 => format!("deformation grids={} dt={}", list.join(","), num(dt)),
@@ -105,7 +113,7 @@ fn operator_lists(h: &H, idx: u64, rng: &mut Rng) {
     h.distinct(mix(idx, 78));
     let e = Ellipsoid::default();
     for _ in 0..24 {
-        let m0 = &models[rng.below(n)];
+        let m0 = &all_models[rng.below(n)];
         // inside, in the margin band, or outside
         let (fx, fy) = (rng.range(-0.3, 1.3), rng.range(-0.3, 1.3));
         let (mut lon, mut lat) = (m0.lon_w + fx * (m0.lon_e - m0.lon_w), m0.lat_s + fy * (m0.lat_n - m0.lat_s));
